@@ -689,7 +689,9 @@ pub fn replay_file(defs: &[PropDef], path: &Path, verif_root: &Path) -> i32 {
         return 2;
     };
     let known = Known::load(&verif_root.join("KNOWN_FINDINGS.txt"), def.id);
-    let (r, stats) = s.replay(&case, Tier::Quick, &Known::empty());
+    // probes of known findings are replayed without exclusions; everything else as in generation
+    let is_probe = known.open_entries().iter().any(|e| verif_root.join(&e.probe) == path || Path::new(&e.probe) == path);
+    let (r, stats) = if is_probe { s.replay(&case, Tier::Quick, &Known::empty()) } else { s.replay(&case, Tier::Quick, &known) };
     match r {
         Ok(()) => {
             println!("replay passed: property={prop} sub={sub} labels={:?}", stats.labels);
